@@ -389,10 +389,29 @@ func (s *vfSUT) legalRanges() (rs []vfRange) {
 	return
 }
 
-func (s *vfSUT) GC(sel uint64, merge bool) (info string, ran bool, err error) {
+func (s *vfSUT) GC(sel uint64, merge bool, pref string) (info string, ran bool, err error) {
 	s.waitBG("before gc")
 	s.LastGC.Ran = false
 	rs := s.legalRanges()
+	if pref != "" {
+		// prefer ranges of the requested kind when there are any
+		var sel []vfRange
+		for _, x := range rs {
+			first := true
+			_, chunks := store.VFChunks(s.hs, x.bucket)
+			for _, c := range chunks {
+				if c.ID < x.b && c.Size > 0 {
+					first = false
+				}
+			}
+			if (pref == "low") == first {
+				sel = append(sel, x)
+			}
+		}
+		if len(sel) > 0 {
+			rs = sel
+		}
+	}
 	if len(rs) == 0 {
 		return "no legal range", false, nil
 	}
